@@ -404,10 +404,12 @@ func MergeConfig(a, b *Config) *Config {
 		result.DisableCoordinates = true
 	}
 	if b.Tags != nil {
-		if result.Tags == nil {
-			result.Tags = make(map[string]string)
-		}
-		maps.Copy(result.Tags, b.Tags)
+		// Build a fresh map: after the shallow copy above result.Tags is
+		// the very map a.Tags points to, and merging must not modify a.
+		tags := make(map[string]string, len(a.Tags)+len(b.Tags))
+		maps.Copy(tags, a.Tags)
+		maps.Copy(tags, b.Tags)
+		result.Tags = tags
 	}
 	if b.BindAddr != "" {
 		result.BindAddr = b.BindAddr
@@ -514,6 +516,12 @@ func MergeConfig(a, b *Config) *Config {
 	}
 	if b.BroadcastTimeout != 0 {
 		result.BroadcastTimeout = b.BroadcastTimeout
+	}
+	if b.ValidateNodeNames {
+		result.ValidateNodeNames = true
+	}
+	if b.MsgpackUseNewTimeFormat {
+		result.MsgpackUseNewTimeFormat = true
 	}
 	result.EnableCompression = b.EnableCompression
 
